@@ -44,6 +44,8 @@ ALPHABET = [
     ('m2', 100.0, 'MD', False),
     ('m3', 50.0, 'MD', True),
 ]
+# solver options passed by some letters (a fresh dict per call); calls without options must not inherit them
+OPTIONS = {4: {'stepsize': 2e-4}}
 ZCONF = {'nozeros': {}, 'zeros': {('A', 'B'): [(0, 1)]}, 'warm': {}}
 ITERS = 25
 
@@ -130,11 +132,12 @@ def call(eng, letter, seed, cb=None):
     listname, total, solver, use_cb = ALPHABET[letter]
     prob = problem(listname, seed)
     ms = prob.fresh_measurements()
+    kw = {'options': dict(OPTIONS[letter])} if letter in OPTIONS else {}
     with M.quiet():
         if use_cb:
-            model = eng.estimate(ms, total=total, engine=solver, callback=cb)
+            model = eng.estimate(ms, total=total, engine=solver, callback=cb, **kw)
         else:
-            model = eng.estimate(ms, total=total, engine=solver)
+            model = eng.estimate(ms, total=total, engine=solver, **kw)
     return model, ms
 
 
@@ -173,11 +176,12 @@ def run_history(zc, hist, seed, acc=None):
         ms = prob.fresh_measurements()
         before, _ = snap_inputs(ms, zeros)
         n_before = cb.n
+        kw = {'options': dict(OPTIONS[letter])} if letter in OPTIONS else {}
         with M.quiet():
             if use_cb:
-                model = eng.estimate(ms, total=total, engine=solver, callback=cb)
+                model = eng.estimate(ms, total=total, engine=solver, callback=cb, **kw)
             else:
-                model = eng.estimate(ms, total=total, engine=solver)
+                model = eng.estimate(ms, total=total, engine=solver, **kw)
         after, _ = snap_inputs(ms, zeros)
         if not same_inputs(before, after):
             fails.append(('inputs-mutated', 'call %d (%s): the measurement list / arrays were modified by estimate' % (step + 1, ALPHABET[letter],)))
